@@ -597,3 +597,5 @@ M('r5-match-inputs-no-matcher-accepts', [('src/call_pattern.rs', '''            
   {'C01': r'R01\.6', 'C04': r'R04\.8', 'C06': r'R06\.5'})
 M('r5-never-called-total-overwritten', [('src/fn_mocker.rs', '''            total_calls += pattern''', '''            total_calls = pattern''')], {'C03': r'R03\.2'})
 M('r6-assembler-cursor-starts-at-one', [('src/assemble.rs', '''            current_call_index: 0,''', '''            current_call_index: 1,''')], {'C04': r'R04\.1', 'C18': r'R18\.4'})
+M('r8-contains-shifted', [(FM, '''                pattern.ordered_call_index_range.start <= ordered_call_index
+                    && pattern.ordered_call_index_range.end > ordered_call_index''', '''                pattern.ordered_call_index_range.contains(&(ordered_call_index + 1))''')], {'C04': r'R04\.4'})
